@@ -46,10 +46,17 @@ def observe(given, variant=0):
     import copy
     m = menu()
     kwargs = {a: copy.deepcopy(m[g]) if g >= 4 else m[g] for a, g in zip(ATTRS, given) if g != 0}
-    if variant == 1 and all(g != 0 for g in given):      # positional form
-        law = UniverseLaws(*[kwargs[a] for a in ATTRS])
-    else:
-        law = UniverseLaws(**kwargs)
+    if variant == 2 and given[0] >= 4:
+        # the whitelist READ FROM ANOTHER law set (whatever read-only mapping the accessor hands out) passed back in
+        kwargs["edge_whitelist"] = UniverseLaws(edge_whitelist=kwargs["edge_whitelist"]).edge_whitelist
+    try:
+        if variant == 1 and all(g != 0 for g in given):      # positional form
+            law = UniverseLaws(*[kwargs[a] for a in ATTRS])
+        else:
+            law = UniverseLaws(**kwargs)
+    except Exception as exc:        # noqa: BLE001 - a law set that cannot be built reads back nothing of what was passed
+        return {"given": list(given), "read": [-1] * 5, "sets": [], "reread": [-1] * 5, "variant": variant,
+                "constructor_raised": type(exc).__name__}
     read = [to_id(getattr(law, a), m) for a in ATTRS]
     sets = []
     for ix, a in enumerate(ATTRS, start=1):
@@ -73,7 +80,7 @@ def observe(given, variant=0):
             except Exception:       # noqa: BLE001 - an immutable mapping is fine
                 pass
     reread = [to_id(getattr(law, a), m) for a in ATTRS]
-    return {"given": list(given), "read": read, "sets": sets, "reread": reread}
+    return {"given": list(given), "read": read, "sets": sets, "reread": reread, "variant": variant}
 
 
 def cases(tier):
@@ -102,7 +109,7 @@ def judge(records, wd):
 def check(run, wd, tier):
     records = []
     for i, g in enumerate(cases(tier)):
-        rec = observe(g, variant=i % 2)
+        rec = observe(g, variant=i % 3)
         rec["id"] = i + 1
         records.append(rec)
     verdicts = judge(records, wd)
@@ -122,7 +129,7 @@ def check(run, wd, tier):
 def replay(path, wd):
     with open(path) as f:
         rp = json.load(f)
-    rec = observe(rp["given"])
+    rec = observe(rp["given"], rp.get("observed", {}).get("variant", 0))
     rec["id"] = 1
     verdicts = judge([rec], wd)
     print(json.dumps(rec))
